@@ -23,6 +23,12 @@ extern "C" {
 #include "varintFloat.h"
 #include "varintPFOR.h"
 #include "varintRLE.h"
+#include "varintDelta.h"
+#include "varintElias.h"
+#include "varintGroup.h"
+#include "varintTagged.h"
+#include "varintExternal.h"
+#include "varintChained.h"
 }
 extern char **environ;
 
@@ -89,7 +95,9 @@ const char *api_kinds[] = {"adaptive.encode", "adaptive.encode_with", "adaptive.
                            "float.encode",   "float.encode_auto",     "float.decode",    "dict.encode",
                            "dict.decode",    "dict.decode_into",      "dict.sizes",      "bitmap.roundtrip",
                            "rle.encode",     "rle.encode_header",     "rle.decode",      "rle.decode_header",
-                           "bp128.32",       "bp128.64",              "bp128d.32",       "bp128d.64"};
+                           "bp128.32",       "bp128.64",              "bp128d.32",       "bp128d.64",
+                           "group.rt",       "delta.rt",              "deltau.rt",       "elias.gamma",
+                           "elias.delta",    "scalar.put"};
 const int N_API = sizeof(api_kinds) / sizeof(api_kinds[0]);
 
 // Executes one API call; returns the digest of what the statement observes:
@@ -116,7 +124,10 @@ uint64_t api_call(const Op &op, const Vals &v_in, const Prefill &pf, bool &ok) {
         n = v.size();
     }
     // exact-size heap copy of the input (its address differs between contexts)
-    uint64_t *in = (uint64_t *)malloc(n * 8);
+    // pf.shift moves the input inside its block too (multiples of 8: other alignment classes
+    // modulo 16/32/64 for the same values)
+    uint8_t *in_base = (uint8_t *)malloc(n * 8 + 64);
+    uint64_t *in = (uint64_t *)(in_base + (pf.shift & 56));
     memcpy(in, v.data(), n * 8);
     int metamode = (int)op.u("meta") % 3; // 0 NULL, 1 zero-initialised, 2 pre-analysed
     if (k == "adaptive.encode" || k == "adaptive.encode_with") {
@@ -354,8 +365,91 @@ uint64_t api_call(const Op &op, const Vals &v_in, const Prefill &pf, bool &ok) {
         d.u64(c);
         d.bytes(dst.p, std::min(w, dst.n));
         ok &= dst.intact();
+    } else if (k == "group.rt") {
+        size_t fc = std::min<size_t>(n, 255);
+        Buf dst(fc * 9 + 128, pf, 1);
+        size_t w = varintGroupEncode(dst.p, in, (uint8_t)fc);
+        d.u64(w);
+        d.bytes(dst.p, std::min(w, dst.n));
+        ok &= dst.intact();
+        if (w) {
+            Buf out(fc * 8, pf, 2);
+            uint8_t got = 0;
+            size_t rd = varintGroupDecode(dst.p, (uint64_t *)out.p, &got, fc);
+            d.u64(rd);
+            d.u64(got);
+            d.bytes(out.p, std::min<size_t>(got, fc) * 8);
+            d.u64(varintGroupGetSize(dst.p));
+            ok &= out.intact();
+        }
+    } else if (k == "delta.rt" || k == "deltau.rt") {
+        Buf dst(varintDeltaMaxEncodedSize(n) + 64, pf, 1);
+        Buf out(n * 8, pf, 2);
+        size_t w, rd;
+        if (k == "delta.rt") {
+            for (size_t i = 0; i < n; i++) in[i] >>= 2; // differences stay inside int64_t
+            w = varintDeltaEncode(dst.p, (const int64_t *)in, n);
+            rd = varintDeltaDecode(dst.p, n, (int64_t *)out.p);
+        } else {
+            w = varintDeltaEncodeUnsigned(dst.p, in, n);
+            rd = varintDeltaDecodeUnsigned(dst.p, n, (uint64_t *)out.p);
+        }
+        d.u64(w);
+        d.u64(rd);
+        d.bytes(dst.p, std::min(w, dst.n));
+        d.bytes(out.p, n * 8);
+        ok &= dst.intact() && out.intact();
+    } else if (k == "elias.gamma" || k == "elias.delta") {
+        bool g = k == "elias.gamma";
+        for (size_t i = 0; i < n; i++)
+            if (!in[i]) in[i] = 1;
+        Buf dst((g ? varintEliasGammaMaxBytes(n) : varintEliasDeltaMaxBytes(n)) + 64, pf, 1);
+        varintEliasMeta m;
+        memset(&m, 0, sizeof m);
+        size_t w = g ? varintEliasGammaEncodeArray(dst.p, in, n, metamode ? &m : nullptr)
+                     : varintEliasDeltaEncodeArray(dst.p, in, n, metamode ? &m : nullptr);
+        d.u64(w);
+        d.bytes(dst.p, std::min(w, dst.n));
+        if (metamode) {
+            d.u64(m.count);
+            d.u64(m.totalBits);
+            d.u64(m.encodedBytes);
+        }
+        Buf out(n * 8, pf, 2);
+        size_t c = g ? varintEliasGammaDecodeArray(dst.p, w * 8, (uint64_t *)out.p, n)
+                     : varintEliasDeltaDecodeArray(dst.p, w * 8, (uint64_t *)out.p, n);
+        d.u64(c);
+        d.bytes(out.p, std::min(c, n) * 8);
+        ok &= dst.intact() && out.intact();
+    } else if (k == "scalar.put") {
+        // the scalar writers: produced bytes [0, width) and the value read back, per element
+        size_t m = std::min<size_t>(n, 512);
+        Buf dst(m * 4 * 16 + 64, pf, 1);
+        uint8_t *q = dst.p;
+        for (size_t i = 0; i < m; i++) {
+            uint64_t x = in[i], back = 0;
+            varintWidth w1 = varintTaggedPut64(q, x);
+            d.u64(w1);
+            d.bytes(q, w1);
+            d.u64(varintTaggedGet64(q, &back));
+            d.u64(back);
+            q += 16;
+            varintWidth w2 = varintExternalPut(q, x);
+            d.u64(w2);
+            d.bytes(q, w2);
+            d.u64(varintExternalGet(q, w2));
+            q += 16;
+            varintWidth w3 = varintChainedPutVarint(q, x);
+            d.u64(w3);
+            d.bytes(q, w3);
+            back = 0;
+            d.u64(varintChainedGetVarint(q, &back));
+            d.u64(back);
+            q += 16;
+        }
+        ok &= dst.intact();
     }
-    free(in);
+    free(in_base);
     return d.h;
 }
 
